@@ -13,11 +13,11 @@ one() {
   hits=""; rules=""
   for p in $PROPS; do
     out=$(GTCHECK_REPO=$W GTCHECK_EVIDENCE=$W/.ev ./run.sh $p quick 2>&1); rc=$?
-    if [ $rc -eq 1 ]; then hits="$hits $p"; rules="$rules $(echo "$out" | grep -oE 'rule [A-Z0-9]+-[A-Za-z0-9]+' | sort -u | tr '\n' ',' | sed 's/rule //g')"; fi
+    if [ $rc -eq 1 ]; then r=$(echo "$out" | grep -oE 'rule [A-Z0-9]+-[A-Za-z0-9]+' | sort -u | tr '\n' ',' | sed 's/rule //g; s/,$//'); hits="$hits $p($r)"; fi
     if [ $rc -ge 2 ]; then hits="$hits $p(ERR)"; fi
   done
   own=$(python3 -c "import json;print(json.load(open('/verif/seeded/$s/meta.json'))['property'])")
-  echo "$s [breaks $own]: flagged by:${hits:- NONE}   rules:$(echo $rules | tr ' ' '\n' | sort -u | tr '\n' ' ')"
+  echo "$s [breaks $own]: flagged by:${hits:- NONE}"
   rm -rf $W
 }
 export -f one; export PROPS
